@@ -138,7 +138,10 @@ fn deserialize_types(text: &str) -> Result<HashSet<RepositoryType>, RepositoryEr
 }
 
 fn serialize_types(files: &HashSet<RepositoryType>) -> String {
-    files.into_iter().map(|rt| rt.to_string()).collect::<Vec<String>>().join("\n")
+    // a set has no order of its own: print in a fixed one, on one line like the other list fields
+    let mut types = files.into_iter().map(|rt| rt.to_string()).collect::<Vec<String>>();
+    types.sort();
+    types.join(" ")
 }
 
 fn deserialize_uris(text: &str) -> Result<Vec<Url>, String> { // TODO: bad error type
